@@ -68,7 +68,8 @@ class _Return(Exception):
 
 
 class _Break(Exception):
-    pass
+    def __init__(self, v=None):
+        self.v = v
 
 
 class _Continue(Exception):
@@ -438,9 +439,10 @@ class Parser:
             return ("return", ln, self.expr() if self.starts_expr() else None)
         if w == "break":
             self.i += 1
-            if self.starts_expr():
-                raise SiteError("`break` with a value is not read by this translator", ln)
-            return ("break", ln)
+            return ("break", ln, self.expr() if self.starts_expr() else None)
+        if w == "loop":
+            self.i += 1
+            return ("loop", ln, self.block_here())
         if w == "continue":
             self.i += 1
             return ("continue", ln)
@@ -1192,6 +1194,13 @@ class Interp:
         if k == "call":
             return self.call_expr(e[2], [self.ev(a, env, st) for a in e[3]], env, st, ln)
         if k == "mcall":
+            if e[3] == "take" and not e[4] and e[2][0] == "path" and len(e[2][2]) == 1:
+                # Option::take on a local variable: the variable becomes None, the old value is the result
+                sc, old = self.lookup(env, e[2][2][0])
+                if sc is None or old is None or old[0] != "variant" or old[2] not in ("Some", "None"):
+                    raise SiteError("`.take()` on something that is not a local Option", ln)
+                sc[e[2][2][0]] = ("variant", None, "None", [])
+                return old
             return self.method(self.ev(e[2], env, st), e[3], [self.ev(a, env, st) for a in e[4]], st, ln)
         if k == "field":
             return self.field(self.ev(e[2], env, st), e[3], ln)
@@ -1245,7 +1254,15 @@ class Interp:
         if k == "return":
             raise _Return(self.ev(e[2], env, st) if e[2] is not None else UNIT)
         if k == "break":
-            raise _Break()
+            raise _Break(self.ev(e[2], env, st) if len(e) > 2 and e[2] is not None else None)
+        if k == "loop":
+            while True:
+                try:
+                    self.ev(e[2], env, st)
+                except _Continue:
+                    continue
+                except _Break as b:
+                    return b.v if b.v is not None else UNIT
         if k == "continue":
             raise _Continue()
         if k == "index":
@@ -1502,6 +1519,9 @@ class Interp:
     def field(self, v, name, ln):
         if v[0] == "parser" and name == "position":
             return ("int", v[1]["pos"], "usize")
+        if v[0] == "parser" and name == "options":
+            return ("struct", "Options", {"accept_truncated_surrogate_pair": ("bool", v[1].get("trunc", False)),
+                                          "accept_invalid_codepoints": ("bool", v[1].get("inval", False))})
         if v[0] == "struct" and name in v[2]:
             return v[2][name]
         if v[0] in ("variant",) and isinstance(name, int) and name < len(v[3]):
@@ -1520,6 +1540,11 @@ class Interp:
     def method(self, recv, name, args, st, ln):
         if recv[0] == "parser":
             return parser_stub_method(recv[1], name, args, ln)
+        if recv[0] == "strbuf":
+            if name == "push" and len(args) == 1 and args[0][0] == "char":
+                recv[1].append(args[0][1])
+                return UNIT
+            raise SiteError(f"method `{name}` on the string under construction is not evaluated by this translator", ln)
         ty = self.type_name(recv)
         if ty is not None and (ty, name) in self.mod.impl_fns:
             return self.call(self.mod.find_fn(name, ty), [recv] + args, ty)
@@ -2473,6 +2498,109 @@ def site_leaf(kind):
         return out, fn.line, f"fn {fn.where()}, executed on {len(out)} inputs against the Parser stub"
     return f
 
+
+# ----------------------------------------------------------------------------- the string scanner, executed
+def _span(args, ln):
+    a, b = args
+    return ("variant", "Span", "Span", [a, ("int", max(a[1], b[1]), "usize")])       # locspan::Span::new
+
+
+def _string_run(mod, fn, word, o):
+    """SmallString::parse_in on `word` under the option record o (bit 1 = accept_truncated_surrogate_pair, bit 2 =
+    accept_invalid_codepoints) -> Ok: [0, index, position, n, c1 .. cn] + code map;  errors: [1, p, c + 1 | 0]
+    Unexpected, [5, p] Stream, [6, s, e, high] MissingLowSurrogate, [7, s, e, cp] InvalidUnicodeCodePoint,
+    [8, s, e, high, cp] InvalidLowSurrogate"""
+    it = Interp(mod)
+    mk = lambda name: (lambda args, ln: ("variant", "Error", name, list(args)))
+    it.externs = {
+        ("Error", "unexpected"): lambda args, ln: ("variant", "Error", "Unexpected", list(args)),
+        ("Error", "MissingLowSurrogate"): mk("MissingLowSurrogate"),
+        ("Error", "InvalidUnicodeCodePoint"): mk("InvalidUnicodeCodePoint"),
+        ("Error", "InvalidLowSurrogate"): mk("InvalidLowSurrogate"),
+        (None, "Meta"): lambda args, ln: ("variant", "Meta", "Meta", list(args)),
+        ("Span", "new"): _span,
+        ("SmallString", "new"): lambda args, ln: ("strbuf", []),
+    }
+    stub = parser_stub(word)
+    stub[1]["trunc"], stub[1]["inval"] = bool(o & 1), bool(o & 2)
+    try:
+        v = it.call(fn, [stub, ("variant", "Context", "None", [])], "SmallString")
+    except EvalPanic as e:
+        raise SiteError(f"`{fn.where()}` panics on the input {[hex(c) for c in word]}: {e}", fn.line)
+    if v[0] != "variant" or v[2] not in ("Ok", "Err"):
+        raise SiteError(f"`{fn.where()}` yields {show_val(v)}, expected a Result", fn.line)
+    x = v[3][0]
+    if v[2] == "Ok":
+        if not (x[0] == "variant" and x[2] == "Meta" and x[3][0][0] == "strbuf" and x[3][1][0] == "int"):
+            raise SiteError(f"`{fn.where()}` returns {show_val(x)}, expected Meta(string, index)", fn.line)
+        cps = x[3][0][1]
+        return [0, x[3][1][1], stub[1]["pos"], len(cps)] + list(cps) + [n for e in stub[1]["cm"] for n in e]
+    if x[0] != "variant":
+        raise SiteError(f"`{fn.where()}` fails with {show_val(x)}", fn.line)
+
+    def span(sp):
+        if not (sp[0] == "variant" and sp[2] == "Span"):
+            raise SiteError(f"expected a Span, got {show_val(sp)}", fn.line)
+        return [sp[3][0][1], sp[3][1][1]]
+    a = x[3]
+    if x[2] == "Stream":
+        return [5, a[0][1]]
+    if x[2] == "Unexpected":
+        c = a[1]
+        return [1, a[0][1], 0 if c[2] == "None" else c[3][0][1] + 1]
+    if x[2] == "MissingLowSurrogate":
+        return [6] + span(a[0]) + [a[1][1]]
+    if x[2] == "InvalidUnicodeCodePoint":
+        return [7] + span(a[0]) + [a[1][1]]
+    if x[2] == "InvalidLowSurrogate":
+        return [8] + span(a[0]) + [a[1][1], a[2][1]]
+    raise SiteError(f"`{fn.where()}` fails with {show_val(x)}", fn.line)
+
+
+def _string_words():
+    q = [0x22]
+    el = [_o("\\ud83d"), _o("\\ude00"), _o("\\udbff"), _o("\\udc00"), _o("\\n"), _o("x"), _o("\\u0041"), [0xE9], _o("\\/"),
+          _o("\\\""), _o("\\\\"), _o("\\b"), [0x1F600], _o("\\ud800"), _o("\\udfff"), _o("\\uDBFF"), _o("\\uffff")]
+    sur = el[:4]
+    bodies = [[]]
+    bodies += [a for a in el]
+    bodies += [a + b for a in el for b in el]
+    bodies += [a + b + c for a in sur for b in el[:8] for c in sur]
+    bodies += [a + b + c for a in sur for b in sur for c in el[4:9]]
+    bodies += [a + b + c + d for a in sur[:2] for b in sur[:2] for c in sur[:2] for d in sur[:2]]
+    words = []
+    for b in bodies:
+        words.append(q + b + q)
+    for b in bodies[:1 + len(el) + 40]:
+        words.append(q + b)                        # no closing quote
+        words.append(q + b + [STREAM_ERR])
+    # what may not stand in a string, a broken escape, a broken \u word, the opening quote missing, input after the string
+    for extra in ([0x1F], [0x00], [0x0A], [0x7F], _o("\\x"), _o("\\u12"), _o("\\u12g4"), _o("\\ud83d\\u12"), _o("\\"), _o("\\u")):
+        words.append(q + extra + q)
+        words.append(q + _o("a") + extra + q)
+    words += [[], _o("x"), _o(" \"a\""), q + q + _o("x"), q + _o("ab") + q + q, [STREAM_ERR], q + [0x10FFFF, 0xFFFE] + q]
+    seen, out = set(), []
+    for w in words:
+        if tuple(w) not in seen:
+            seen.add(tuple(w))
+            out.append(w)
+    return out
+
+
+STRING_WORDS = _string_words()
+
+
+def site_leaf_string(mods):
+    """SmallString::parse_in (the string scanner with its pending-high-surrogate state), executed under the four
+    option records"""
+    mod = mods("src/parse/string.rs")
+    fn = parse_in_fn(mod)
+    out = []
+    for o in range(4):
+        for w in STRING_WORDS:
+            out.append(([o] + w, _string_run(mod, fn, w, o)))
+    return out, fn.line, f"fn SmallString::parse_in, executed on {len(STRING_WORDS)} inputs x 4 option records against the Parser stub"
+
 def cval_of(v, line):
     k = v[0]
     if k == "int":
@@ -2757,6 +2885,12 @@ def _sites():
                 f"Err unexpected at {o[1]} " + ("end" if o[2] == 0 else u(o[2] - 1))) for w, o in v],
             thm="C01_leaf_parsers_from_source",
             model="the outcome of the model's leaf function (parse_null, parse_bool, parse_hex4, array_start, array_continue) on the same inputs")
+    add(id="leaf_string", file="src/parse/string.rs", props=["C01", "C02", "C05", "C07", "C12"], ev=site_leaf_string,
+        ty="list (list N * list N)", coq=lambda v: c_list([f"({c_cps(w)}, {c_cps(o)})" for w, o in v], ";\n   "),
+        items=lambda v: [f"options {w[0]}: " + " ".join("<fails>" if c == STREAM_ERR else u(c) for c in w[1:]) + " -> "
+                         + " ".join(str(n) for n in o) for w, o in v],
+        thm="C12_string_scanner_from_source",
+        model="the outcome of Parser.parse_string under the same option record on the same inputs")
     add(id="is_control", file="src/parse/string.rs", props=parse_props, ev=site_is_control,
         ty="list (N * N)", coq=c_set, items=s_set, thm="C01_control_from_source",
         model="set_of Parser.is_control char_domain")
